@@ -36,13 +36,13 @@ CHECKS = {
     note="Histories keep one direction per system. O(h^4) clause on the two rational-solution problems only. Bounds in spec/Bounds.tla.",
     technique="TLC model checking + trace validation (OdeTrace.tla) + fact judge (DenseJudge.tla) + replay of TLC-simulated model behaviours into the real code", design="6/C06"),
  "C07": dict(level="model_checking",
-    text="OdeSystem.tla: EventsAreRoots, NoEventTwice (boundary roots shared by two steps / two events; deviation dedupByPosition violates it), TerminalStop. Every scenario of the event lattice (time/state/derivative events, scales 1e-18..1e6, directions, up to 6 simultaneous events, interior/boundary/last-ulp/unrepresentable roots, all families, both directions, dense on/off) is traced: OdeTrace.tla checks each recorded event inside its step, ordered along the direction, unique; EventJudge.tla decides residual, equality with the dense solution, distance to the true root, direction compatibility and uniqueness against the ground truth the scenario defines.",
-    note="True-root distance for time events and for state events on y'=-y^2 only; on backward runs a direction is accepted under either reading.",
-    technique="TLC model checking + trace validation (OdeTrace.tla) + fact judge (EventJudge.tla)", design="6/C07"),
+    text="OdeSystem.tla: EventsAreRoots, NoEventTwice (boundary roots shared by two steps / two events; deviation dedupByPosition violates it), TerminalStop. Every scenario of the event lattice (time/state/derivative events, scales 1e-18..1e6, directions, up to 6 simultaneous events, interior/boundary/last-ulp/unrepresentable roots, all families, both directions, dense on/off) is traced: OdeTrace.tla checks each recorded event inside its step, ordered along the direction, unique; EventJudge.tla decides residual, equality with the dense solution, distance to the true root, direction compatibility and uniqueness against the ground truth the scenario defines. In the other direction TLC-simulated behaviours of the design model with events (OdeSystemSim.tla: boundary roots shared by two steps, two functions crossing in one step in either order, terminal after non-terminal, continuation calls) are replayed on the real code; the reported events must be the model's, in its order.",
+    note="True-root distance for time events and for state events on y'=-y^2 only; direction is read along the run (the pinned library's and scipy's reading), on backward runs too.",
+    technique="TLC model checking + trace validation (OdeTrace.tla) + fact judge (EventJudge.tla) + replay of TLC-simulated model behaviours into the real code", design="6/C07"),
  "C08": dict(level="model_checking",
-    text="The antecedent of the property is observed directly: every event function is evaluated at every pair of consecutive recorded rows; EventJudge.tla requires for every strict sign change (with a direction the function requests) at least one recorded event of that function inside that step, and for time events that every root the scenario defines inside the integrated range is reported; scales over 24 decades, both directions, large |t|, dense on/off, 1..6 events; design-level model as C07.",
+    text="The antecedent of the property is observed directly: every event function is evaluated at every pair of consecutive recorded rows; EventJudge.tla requires for every strict sign change (with a direction the function requests) at least one recorded event of that function inside that step, and for time events that every root the scenario defines inside the integrated range is reported; scales over 24 decades, both directions, large |t|, dense on/off, 1..6 events; design-level model as C07. In the other direction TLC-simulated behaviours of the design model with events (OdeSystemSim.tla: boundary roots shared by two steps, two functions crossing in one step in either order, terminal after non-terminal, continuation calls) are replayed on the real code; the reported events must be the model's, in its order.",
     note="With a requested direction a backward crossing is not demanded (the two readings of 'direction' disagree there).",
-    technique="TLC model checking + fact judge (EventJudge.tla) over traces of the real code", design="6/C08"),
+    technique="TLC model checking + fact judge (EventJudge.tla) over traces of the real code + replay of TLC-simulated model behaviours into the real code", design="6/C08"),
  "C12": dict(level="fault_enumeration",
     text="Every position k of the failing call among all right-hand-side / event / callback invocations of short runs is a separate execution of the real code (all k up to a cap, else first/last and a seeded sample), with second faults, KeyboardInterrupt, resume and reset; each trace is validated by OdeTrace.tla (error type and cause chain, status, trimmed paired finite prefix that equals the committed rows, dense pieces exactly those steps, resume reaches the target, reset pristine) and the resumed result is compared with the undisturbed run by TwinJudge.tla; OdeSystem.tla with FAULTS=TRUE lets TLC visit every crash point of every short history at design level. In the other direction TLC (-simulate, OdeSystemSim.tla) produces behaviours of the design model - API script, callback assignments, crash points - that are replayed on the real code with explicit and splitting fixed-step methods; the projected state (rows, step, status, events, dense pieces, raised error and its cause) must equal the model's prediction at every API return (exactly, times being dyadic).",
     note="Faults are injected through wrapped user callables only. Bit-for-bit resume only for fixed-step explicit/splitting runs without events/callbacks, tolerance elsewhere.",
